@@ -361,7 +361,7 @@ pub fn catalogue() -> Vec<Scenario> {
         (
             "reorg-of-confirming-block",
             cfg,
-            vec![reg0.clone(), add(0, 0, 0), mine(vec![d0]), Op::Poll, mine(vec![]), Op::Poll, Op::Reorg { depth: 1, extra: 1, first: vec![], later_at: 0, later: vec![] }],
+            vec![reg0.clone(), add(0, 0, 0), mine(vec![d0]), Op::Poll, mine(vec![]), Op::Poll, Op::Reorg { depth: 1, extra: 1, first: vec![], later_at: 0, later: vec![], evict: false }],
         ),
         ("plain-block", cfg, vec![reg0.clone(), add(0, 0, 0), mine(vec![])]),
     ];
@@ -375,6 +375,11 @@ pub fn catalogue() -> Vec<Scenario> {
     let in_cache = vec![reg0.clone(), mine(vec![d0]), Op::Poll, mine(vec![])];
     out.push(Scenario { name: "dispute-in-window: add || plain block".into(), cfg, setup: in_cache.clone(), threads: vec![Op::Poll, add(0, 0, 0)] });
     out.push(Scenario { name: "dispute-in-window: add || same add".into(), cfg, setup: in_cache[..3].to_vec(), threads: vec![add(0, 0, 0), add(0, 0, 0)] });
+    // ... and the block being processed carries the penalty itself (somebody else broadcast it): the Responder learns of the
+    // breach while its own index and confirmation check are running
+    let p0 = TxRef::Penalty(0, 0, 0, 0);
+    out.push(Scenario { name: "dispute-in-window: add || block with its penalty".into(), cfg, setup: vec![reg0.clone(), mine(vec![d0]), Op::Poll, mine(vec![p0])], threads: vec![Op::Poll, add(0, 0, 0)] });
+    out.push(Scenario { name: "dispute-in-window: add || penalty block, then another".into(), cfg, setup: vec![reg0.clone(), mine(vec![d0]), Op::Poll, mine(vec![p0]), mine(vec![])], threads: vec![Op::Poll, add(0, 0, 0)] });
     // dispute block being processed while the appointment arrives (the C10 headline case)
     out.push(Scenario { name: "appointment arrives while its dispute block is processed".into(), cfg, setup: vec![reg0.clone(), mine(vec![d0])], threads: vec![Op::Poll, add(0, 0, 0)] });
     // pure API pairs
